@@ -92,13 +92,15 @@ def generate(g, tier):
     EDGE = ['()', '( )', '(())', '((', '))', '(', ')', '', ' ', '!', '!()', '!( )', '""', '"', '"' * 3, '-', '.', '-.', '1 +', '+ 1', '1 + + 2', ',', '1,', ',1', '1,,2',
             '(1,2),', 'TRUE FALSE', '1 2', 'a b', '$', '$$', '1 ==', '== 1', '<', '<=', '//', '^', '1 ^ ^ 2', '(1)(2)', '()()', '1()', '"a""b"', '"a" "b"', '5.5.5', '..', '1..2',
             '0-', '-(1)', '!1', '!"a"', 'TRUE(1)', '((((((((((1))))))))))', '( 1 , 2 ) + 1', '(1,2)*2', '2*(1,2)', '(1,2)==(1,2)', '(1,2)<(1,3)', '"a"*3', '3*"a"', '"a"*"b"', 'TRUE+TRUE',
-            'TRUE*2', '2*TRUE', '1/TRUE', '1/FALSE', '1%FALSE', '1//FALSE', '2^"a"', '"a"^2', '2^(1,2)', '0^0', '0^(0-1)', '(0-8)^0.5', '10^400', '10.0^400', '2^0.5']
+            'TRUE*2', '2*TRUE', '1/TRUE', '1/FALSE', '1%FALSE', '1//FALSE', '2^"a"', '"a"^2', '2^(1,2)', '0^0', '0^(0-1)', '(0-8)^0.5', '10^400', '10.0^400', '2^0.5',
+            '1.5*10^308*1.5', '1.5*10^308*1.5 // 1', '1.5*10^308*1.5 % 2', '(1.5*10^308*1.5) - (1.5*10^308*1.5)', '0 * (1.5*10^308*1.5)', '1 / (1.5*10^308*1.5)', '(1.5*10^308*1.5) ^ 0', '(1.5*10^308*1.5) > 1',
+            '"x" + 1.5*10^308*1.5', '1.5*10^308*1.5 == 1.5*10^308*1.5', '(0 - 1.5*10^308*1.5) // 3', '2.5 // (1.5*10^308*1.5)', '7*10^5000', '(7*10^5000) > 1', '(7*10^5000) // 10^4990', '0.1 ^ 400', '5 % 0.1 ^ 400']
     CTX = ['$STRING {}', 'VAR v {}', 'IF {}\n    STRING a', 'ELIF {}\n    STRING a', 'WHILE {}\n    BREAKLOOP', 'WHILE i,{}\n    BREAKLOOP', 'REPEAT {}\n    STRING a',
            'REPEAT i,{}\n    STRING a', 'DELAY {}', '$ENTER {}', 'FUNC f a\n    STRING x\nRUN f {}', 'RETURN {}', '$PRINT {}', '$HOLD {}', 'WHITESPACE {}', '$GUI {}',
            'DEFAULT_DELAY {}', '$ALTCHAR {}']
     for e in EDGE:
         for cx in CTX:
-            if cx.startswith('$ENTER') and e in ('10^400', '10.0^400'): continue      # the D19 probe below covers huge counts
+            if cx.startswith('$ENTER') and any(k in e for k in ('10^400', '10.0^400', '10^5000', '10^308', '10^4990')): continue      # the D19 probe below covers huge counts
             cases.append(dict(op='compile', src=dict(text=cx.format(e)), meta=dict(family='edge')))
     # the START family with every kind of argument, inside a real file (so that the path is resolved), and comma lists that
     # are stored, extended, nested and compared
